@@ -29,6 +29,8 @@ struct h4v_ghost_const { /* never written by stubs or code */
     int32    k;          /* ghost position in the uncompressed stream */
     unsigned exp;        /* write side: the byte of the input stream at g_k */
     uint8   *disk;       /* ghost byte store ("disk"), NULL: none */
+    uint8   *out;        /* the caller's destination buffer (decode proof) */
+    uint8   *watch;      /* address of the caller's byte that receives stream position g_k (or NULL) */
     int32    disk_cap;
 } GC;
 struct h4v_ghost {
@@ -71,6 +73,8 @@ struct h4v_ghost {
 #define g_have       G.have
 #define g_dexp       G.dexp
 #define g_disk       GC.disk
+#define g_watch      GC.watch
+#define g_out        GC.out
 #define g_disk_cap   GC.disk_cap
 #define g_disk_n     G.disk_n
 #define g_dp         G.dp
@@ -120,6 +124,53 @@ struct h4v_ghost {
                            : ((r)->rle_state == RLE_RUN                                              \
                                   ? (r)->last_byte == g_dexp                                         \
                                   : (r)->buffer[(r)->buf_pos + (g_k - (g_dpos - PENDING(r)))] == g_dexp))))
+
+/* ---- ghost-element models of the bulk copies (only with -DRLE_GHOST_COPY: the unbounded
+   HCIcrle_decode proof).  cbmc's own memcpy/memset models with a symbolic length did not get
+   through the SAT conversion here.  These models check that the WHOLE source/destination range
+   is accessible (and, through dfcc, assignable), then havoc the destination range and give the
+   exact value only to the one byte the proof watches (g_watch: where stream position g_k lands;
+   any deterministic choice of that byte is a sound over-approximation of the real copy). */
+#if defined(H4V_CBMC) && defined(RLE_GHOST_COPY) && !defined(H4V_CEX)
+/* the destination is re-based on the harness' own pointer to the caller's buffer (g_out): a
+   write through the loop-havocked parameter `buf` itself would update every object of the unit */
+static uint8 *
+ghost_dest(void *d, size_t n)
+{
+    __CPROVER_assert(__CPROVER_w_ok(d, n), "H4V: bulk copy destination range writable");
+    __CPROVER_assert(g_out != NULL && __CPROVER_same_object(d, g_out), "H4V: the decoder copies into the caller's buffer only");
+    return g_out + __CPROVER_POINTER_OFFSET(d);
+}
+void *
+memcpy(void *d, const void *s, size_t n)
+{
+    __CPROVER_assert(__CPROVER_r_ok(s, n), "H4V: memcpy source range readable");
+    uint8 *dd = ghost_dest(d, n);
+    if (n > 0) {
+        int   hit  = g_watch != NULL && g_watch >= dd && g_watch < dd + n;
+        uint8 keep = 0;
+        if (hit)
+            keep = ((const uint8 *)s)[g_watch - dd];
+        __CPROVER_havoc_slice(dd, n);
+        if (hit)
+            *g_watch = keep;
+    }
+    return d;
+}
+void *
+memset(void *d, int c, size_t n)
+{
+    uint8 *dd = ghost_dest(d, n);
+    if (n > 0) {
+        int hit = g_watch != NULL && g_watch >= dd && g_watch < dd + n;
+        __CPROVER_havoc_slice(dd, n);
+        if (hit)
+            *g_watch = (uint8)c;
+    }
+    return d;
+}
+#define H4V_GHOST_COPY 1
+#endif
 
 /* --------------------------------- stubs ----------------------------------- */
 static int
@@ -296,7 +347,17 @@ Hread(int32 access_id, int32 length, void *data)
         g_io_failed = 1;
         return FAIL;
     }
+#ifdef H4V_GHOST_COPY
+    /* as above: whole range checked + havocked, the literal for stream position g_k is exact */
+    __CPROVER_assert(__CPROVER_w_ok(p, (size_t)length), "H4V: Hread destination range writable");
+    __CPROVER_havoc_slice(p, (size_t)length);
+    if (g_rst == 2 && g_k >= g_dpos && g_k - g_dpos < length)
+        p[g_k - g_dpos] = g_disk[g_dp + (g_k - g_dpos)];
+    else if (g_rst != 2)
+        p[0] = g_disk[g_dp];
+#else
     memcpy(p, g_disk + g_dp, (size_t)length);
+#endif
     if (g_rst == 2) {
         H4V_CHECK(length <= g_rneed, "packet protocol: reader takes no more literals than the count byte announced");
         if (g_k >= g_dpos && g_k - g_dpos < length) {
@@ -386,6 +447,8 @@ static int32 HCIcrle_decode(compinfo_t *info, int32 length, uint8 *buf)
     __CPROVER_requires(info != NULL && info->aid == g_aid && DEC_WF(RI(info)))
     __CPROVER_requires(length >= 0 && RF(info, offset) >= 0 && length <= 0x7fffffff - RF(info, offset))
     __CPROVER_requires(g_rst == 0 && g_dpos >= 0 && g_dpos - PENDING(RI(info)) == RF(info, offset))
+    /* the store holds g_disk_n bytes, the read position is inside it */
+    __CPROVER_requires(g_disk != NULL && g_dp >= 0 && g_dp <= g_disk_n && g_disk_n <= g_disk_cap)
     __CPROVER_requires(g_k >= 0 && DEC_CODED(RI(info)))
     __CPROVER_assigns(RF(info, offset), RF(info, rle_state), RF(info, last_byte), RF(info, buf_length), RF(info, buf_pos),
                       __CPROVER_object_upto(RF(info, buffer), 128), __CPROVER_object_upto(buf, length), G_ALL)
@@ -488,6 +551,8 @@ havoc_ghosts(void)
     g_have = g_have_0;
     
     g_disk     = NULL;
+    g_watch    = NULL;
+    g_out      = NULL;
     g_disk_cap = g_disk_n = g_dp = 0;
 }
 
@@ -558,8 +623,8 @@ h_crle_decode(void)
     compinfo_t *info = mk_info();
     H4V_ND(int32, disk_n);
     H4V_ND(int32, disk_pos);
-    H4V_ASSUME(disk_n >= 0 && disk_pos >= 0 && disk_pos <= disk_n && disk_n <= 64);
-    uint8 disk[64];
+    H4V_ASSUME(disk_n >= 0 && disk_pos >= 0 && disk_pos <= disk_n);
+    H4V_ND_BUF(uint8, disk, disk_n, 12);
     g_disk     = disk;
     g_disk_cap = g_disk_n = disk_n;
     g_dp       = disk_pos;
@@ -568,7 +633,12 @@ h_crle_decode(void)
 #ifdef H4V_CEX
     H4V_ASSUME(length <= 12);
 #endif
-    uint8 out[256]; H4V_ASSUME(length <= 256);
+    uint8 *out = malloc((size_t)length + (length == 0));
+    H4V_ASSUME(out != NULL);
+    g_out = out;
+    H4V_ASSUME(g_k >= 0 && RF(info, offset) >= 0);
+    if (g_k >= RF(info, offset) && g_k - RF(info, offset) < length)
+        g_watch = out + (g_k - RF(info, offset));
     int   st0 = RF(info, rle_state);
     int32 r   = HCIcrle_decode(info, length, out);
     H4V_COVER(r == SUCCEED && RF(info, rle_state) == RLE_RUN, "decode ends inside a run");
